@@ -154,6 +154,10 @@ func genElement(rc *RC, n *int, depth int, g *c08Gen) string {
 	*n++
 	names := []string{"message", "presence", "iq", "x", "data"}
 	name := names[ch.Int("workload", len(names))]
+	if !g.ws && ch.Chance("workload", 1, 25) {
+		// elements of the WebSocket framing namespace mean nothing on a TCP stream: ordinary foreign elements
+		return []string{`<close xmlns="` + nsFraming + `"/>`, `<open xmlns="` + nsFraming + `" version="1.0"/>`, `<close xmlns="` + nsFraming + `">x</close>`}[ch.Int("workload", 3)]
+	}
 	var sb strings.Builder
 	sb.WriteString("<" + name)
 	if depth == 0 {
@@ -246,8 +250,9 @@ func runC08(rc *RC) {
 			sb.WriteString("<!DOCTYPE x>")
 		case k == 22:
 			term = "text"
-			// character data is only complete once the next tag starts
-			sb.WriteString("stray text<x xmlns='urn:other'/>")
+			// character data is only complete once the next tag starts; text made of spaces that are not XML whitespace is text
+			sb.WriteString([]string{"stray text", "\u00a0", "\u0085", "\u2028\u2029", "\u3000 \u2003", " \u00a0 ", "\ufeff"}[ch.Int("workload", 7)])
+			sb.WriteString("<x xmlns='urn:other'/>")
 		case k == 23:
 			term = "streamerror"
 			fmt.Fprintf(&sb, `<%serror%s><conflict xmlns='urn:ietf:params:xml:ns:xmpp-streams'/></%serror>`, streamPfx, streamDecl, streamPfx)
